@@ -188,6 +188,27 @@ Definition cancel_rule (c : case) : bool :=
                    else has_reducer c && ex_before is_ce (fun e => is_rw e || is_ret e) t in
   if cancelled then is_err (c_out c) || (is_xpanic (c_out c) && existsb is_panic_ev t) else true.
 
+(* ... also while the cancel is still inside its drain(source) (retErr is recorded first, done/output are closed
+   last).  Evidence in the trace that a cancel has recorded its error, without seeing inside the library: more sends
+   of the generator have completed than there are workers while no mapper has returned yet (a mapper keeps its pool
+   token until after EME), no panic, no ctx: the dispatcher can have taken at most `workers` items, its final drain
+   cannot have started (done/ctx/failed all need something that has not happened), so a drain(source) inside cancel
+   took one - and retErr.Set precedes that drain.  If that point comes before the reducer starts its first write,
+   the caller loads retErr after it: the call returns the cancel error, never the value / ErrReduceNoOutput. *)
+Fixpoint drain_evidence (w sent : nat) (t : list ev) : bool :=
+  match t with
+  | [] => false
+  | ESent _ :: r => if Nat.ltb w (S sent) then true else drain_evidence w (S sent) r
+  | EME _ :: _ | EPn _ _ :: _ | EGPanic _ :: _ | ERP _ :: _ | ECx _ :: _ | ERW _ :: _ | ERet :: _
+  | EPX _ :: _ | ERPX :: _ => false
+  | _ :: r => drain_evidence w sent r
+  end.
+Definition cancel_rule2 (c : case) : bool :=
+  if has_reducer c && Nat.eqb (c_ctx c) 0 && drain_evidence (eff_workers c) 0 (c_trace c)
+  then is_err (c_out c) || (is_xpanic (c_out c) && existsb is_panic_ev (c_trace c)) ||
+       (match c_out c with XTwice => true | _ => false end && Nat.leb 2 (List.length (rw_list (c_trace c))))
+  else true.
+
 (* a panic (raised before the call returned, no cancel / ctx in the script) is re-raised in the caller *)
 Definition panic_rule (c : case) : bool :=
   let t := c_trace c in
@@ -214,7 +235,7 @@ Definition spec_ok_gen (skip : nat) (c : case) : bool :=
   recv_ok [] t &&
   (if sclean c && negb (has_cancel_act c) && negb (existsb (existsb (fun a => match a with AWaitRet => true | _ => false end)) (c_items c))
    then clean_ok c else true) &&
-  (Nat.eqb skip 1 || (outcome_ok c && cancel_rule c &&
+  (Nat.eqb skip 1 || (outcome_ok c && cancel_rule c && cancel_rule2 c &&
                       (* the library never makes a callback panic (writer.Write on a closed channel) *)
                       negb (existsb (fun e => match e with EPX _ | ERPX => true | _ => false end) t))) && (Nat.eqb skip 2 || panic_rule c) &&
   (Nat.eqb skip 3 || ctx_rule c) &&
@@ -279,6 +300,13 @@ Definition r_receiving (s : state) : bool := match r s with RRecv _ _ => true | 
 Definition in_rs (o : oracle) (v : val) : bool := inb val_eqb v (o_rs o).
 Definition rs_committed (o : oracle) (s : state) : bool :=
   forallb (fun v => inb val_eqb v (recvd s ++ coll s ++ pending_vals s)) (o_rs o).
+(* output is not closed before the caller holds what its observed outcome needs from the reducer *)
+Definition delivered (o : oracle) (s : state) : bool :=
+  match o_out o with
+  | XRet _ => match c s with CDefer _ | CDone _ => true | _ => false end
+  | XTwice => match c s with CDone _ => true | _ => false end
+  | _ => true
+  end.
 Definition nsent (o : oracle) (s : state) : nat := List.length (recvd s) + List.length (filter (in_rs o) (coll s)).
 Fixpoint index_of (v : val) (l : list val) (i : nat) : nat :=
   match l with [] => i | a :: t => if val_eqb v a then i else index_of v t (S i) end.
@@ -325,7 +353,7 @@ Definition allowed_core (o : oracle) (s : state) (l : label) : bool :=
       | Some (it, WSend v _) =>
           if in_rs o v then Nat.eqb (index_of v (o_rs o) 0) (nsent o s) else negb (r_receiving s)
       | Some (_, WCancel CcEnter e _) => once_rule o s e
-      | Some (_, WCancel CcFin _ _) => rs_committed o s
+      | Some (_, WCancel CcFin _ _) => rs_committed o s && delivered o s
       | Some (_, WRun (ACtx :: _)) => rs_committed o s
       | Some (_, WRecover p) => cas_rule o s p && (match List.length (filter (fun i => inb Nat.eqb i (o_mapped o)) (g_rest s)) with
                                                    | 0 => true
@@ -335,7 +363,7 @@ Definition allowed_core (o : oracle) (s : state) (l : label) : bool :=
       | Some _ => true
       | None => false
       end
-  | LR => match r s with RPanicCas p => cas_rule o s p | RFinish => rs_committed o s | _ => true end
+  | LR => match r s with RPanicCas p => cas_rule o s p | RFinish => rs_committed o s && delivered o s | _ => true end
   | LG => match g s with GPanicCas p => cas_rule o s (PUser p) | _ => true end
   | LGSendX =>
       match g_head s with
@@ -352,9 +380,14 @@ Definition allowed_core (o : oracle) (s : state) (l : label) : bool :=
   | LXAcq => more_to_map o s || (negb (ctxd s || fin s) && (nil_rest s || someone_drains s))
   | LC =>
       match c s with
-      | COut _ => is_xpanic (o_out o) || negb (wrote s)
+      | COut _ => is_xpanic (o_out o) ||
+                  (negb (wrote s) &&
+                   match step_c s with
+                   | Some s' => match c s' with CDefer m => first_match (o_out o) m | _ => false end
+                   | None => false
+                   end)
       | CCancel CcEnter => once_rule o s EDeadline
-      | CCancel CcFin => rs_committed o s
+      | CCancel CcFin => rs_committed o s && delivered o s
       | CDefer _ => match o_out o with
                     | XTwice => match r s with RSend _ _ => true | _ => false end
                     | XPanic _ => fin s && wrote s          (* re-raised at the latest by the deferred re-check *)
@@ -368,14 +401,9 @@ Definition allowed_core (o : oracle) (s : state) (l : label) : bool :=
       match o_out o with
       | XErr EDeadline => false
       | XPanic _ => negb (wrote s)        (* the value / close is swallowed; the re-check then waits for the CAS *)
-      | _ => negb (wrote s) &&
-             match step_cout s with
-             | Some s' => match step_c s' with
-                          | Some s'' => match c s'' with CDefer m => first_match (o_out o) m | _ => false end
-                          | None => false
-                          end
-             | None => false
-             end
+      | XRet k => negb (wrote s) && negb (fin s) && match r s with RSend k' _ => Nat.eqb k k' | _ => false end
+      | XNoOutput | XNil => negb (wrote s) && fin s
+      | _ => negb (wrote s)             (* an error / written twice: whatever comes first; the load decides *)
       end
   end.
 
